@@ -68,7 +68,11 @@ def run_case(scn, drv):
         # date: all time points up to and including the date are fixed (as the code defines it)
         d = tg.timepoints[min(fx['k'], tg.T - 1)]
         I_arg = d.to_pydatetime()
-        if d.tzinfo is not None and fx['k'] % 2:
+        if d.tzinfo is not None and fx['k'] % 3 == 2 and gen.ok_local(d.tz_localize(None), scn['grid']) and d.tz_localize(None).tz_localize(d.tz) == d:
+            # a date without zone is meant in the zone of the grid, as for every other date the package takes
+            I_arg = d.tz_localize(None).to_pydatetime()
+            feats.append('window-date-naive-on-zone-grid')
+        elif d.tzinfo is not None and fx['k'] % 2:
             # the same instant written in another zone: a date is a point in time, not a wall-clock reading
             I_arg = d.tz_convert('UTC').to_pydatetime()
             feats.append('window-date-in-other-zone')
@@ -230,7 +234,7 @@ def run_case(scn, drv):
                 d2 = tg.timepoints[j].to_pydatetime()
                 wsteps = set(int(t) for t in tg.I[:j + 1])
             else:
-                d2 = mask.copy()
+                d2 = mask.copy() if len(scn['assets']) % 4 else np.where(mask)[0]     # boolean mask or array of step indices
                 wsteps = set(steps)
             rs0 = pf.setup_split(scn, interval)
             pf.solve_rec(rs0)
